@@ -36,7 +36,7 @@ var defects = []string{"import-cycle", "import-self", "include-cycle", "typedef-
 	"typedef-cycle-local-case", "typedef-cycle-local-augment", "typedef-cycle-local-uses-augment", "typedef-cycle-local-list",
 	"dangling-uses-augment-absolute", "illegal-config-in-remote-grouping", "illegal-default-in-remote-grouping",
 	"dangling-unique-last", "dangling-unique-inner", "dangling-unique-skips-choice", "dangling-unique-via-list", "dangling-unique-non-leaf",
-	"odd-extension-prefix", "odd-extension-name", "illegal-grouping-uses-deprecated-grouping", "include-self", "dangling-import-include-chain"}
+	"odd-extension-prefix", "odd-extension-name", "illegal-grouping-uses-deprecated-grouping", "include-self", "dangling-import-include-chain", "illegal-xpath-prefix-twin"}
 
 func str(s string) *sg.TypeSpec { return &sg.TypeSpec{Name: s} }
 
@@ -98,6 +98,8 @@ func inject(mods []*sg.Mod, d string, pick func(n int) int) {
 		// submodules are appended by the caller through extra modules
 	case "include-self", "dangling-import-include-chain":
 		host.Includes = append(host.Includes, "sa")
+	case "illegal-xpath-prefix-twin":
+		// handled by the caller (two extra modules)
 	case "typedef-cycle-used":
 		m.Typedefs = append(m.Typedefs, &sg.Typedef{Name: "cyc-a", Type: str("cyc-b")}, &sg.Typedef{Name: "cyc-b", Type: str("cyc-a")})
 		host.Nodes[0].Kids = append(host.Nodes[0].Kids, &sg.Node{Kind: "leaf", Name: "cyc-leaf", Type: str("cyc-a")})
@@ -308,6 +310,16 @@ func extraMods(c Case) []*sg.Mod {
 			&sg.Mod{Name: "sa", Prefix: "own", BelongsTo: owner, Includes: []string{"sb"}},
 			&sg.Mod{Name: "sb", Prefix: "own", BelongsTo: owner, Includes: []string{"sc"}},
 			&sg.Mod{Name: "sc", Prefix: "own", BelongsTo: owner, Imports: []sg.Import{{Mod: "no-such-module-deep", Prefix: "nsm"}}})
+	case "illegal-xpath-prefix-twin":
+		// the same expression text in two files, of which only one binds the prefix it uses - in places nothing uses, so
+		// that only the check of all expressions sees them: what an expression means depends on the file it stands in
+		expr := "px:x = 'ok' or /px:top/px:name"
+		gr := func() []*sg.Grouping {
+			return []*sg.Grouping{{Name: "zunused", Kids: []*sg.Node{{Kind: "leaf", Name: "zl", Type: str("string"), Musts: []sg.Must{{Expr: expr}}}}}}
+		}
+		good := &sg.Mod{Name: "zgood", Prefix: "zg", Imports: []sg.Import{{Mod: mods[0].Name, Prefix: "px"}}, Groupings: gr()}
+		bad := &sg.Mod{Name: "zbad", Prefix: "zb", Groupings: gr()}
+		return append(append([]*sg.Mod(nil), mods...), good, bad)
 	case "belongs-to-missing":
 		return append(append([]*sg.Mod(nil), mods...), &sg.Mod{Name: "orphan", Prefix: "own", BelongsTo: "no-such-module"})
 	case "illegal-config-in-remote-grouping", "illegal-default-in-remote-grouping":
